@@ -12,7 +12,15 @@ Supported subset (anything else raises Reject — the translator never guesses):
   * non-`pt` arguments must be integer constants at every call site: functions are specialised on
     them (so `if im:` / `CINT[..., n]` are resolved at translation time);
   * classes: `self.NAME` resolved along the MRO of the class being generated; identical
-    specialisations are shared between classes.
+    specialisations are shared between classes;
+  * helper functions are INLINED at the call site (as `((fun (a : K) … => body) args)`), so that extracting a
+    helper leaves the generated definitions — and every proof about them — in place: a module function that is
+    not a requested target, a method whose name starts with `_` and is not a requested target, and any method
+    called with an argument that is neither `pt` nor a constant (a real expression, a bound method `self.NAME`,
+    a tuple of such).  Bound methods and tuples of them are translation-time values: `cfuns[0](pt)`,
+    `cfuns[1:]`, `fn(pt)` are resolved statically;
+  * `for x in <tuple>`, `for i, x in enumerate(<tuple>, start=k)`, `for i in range(consts)`, `zip(...)` over
+    translation-time sequences are unrolled; `x += e` is `x = x + e`.
 
 Types: R (real scalar K), C (Cx K), T[...] (tuple).  Real/complex mixing is made explicit
 (Cx.ofReal, Cx.smul, Cx.divR).
@@ -86,8 +94,10 @@ class Module:
 
 class Translator:
     def __init__(self, mod: Module, *, consts, module_funcs=None, numpy_funcs=None, static_conds=None,
-                 model_attr='m', pt_fields=None, m_fields=None, ns='Bmk'):
+                 model_attr='m', pt_fields=None, m_fields=None, ns='Bmk', targets=None):
         self.mod = mod
+        self.targets = set(targets or ())   # python names that are requested entry points: never inlined
+        self.inline_depth = 0
         self.consts = consts                    # python name -> lean expr of type K
         self.module_funcs = module_funcs or {}  # python name -> (lean name, nargs) for already translated functions
         self.np = numpy_funcs or {'sqrt': 'ksqrt', 'cos': 'kcos', 'sin': 'ksin', 'exp': 'kexp', 'log': 'klog'}
@@ -171,9 +181,10 @@ class Translator:
                 for p in params:
                     env[p] = ('var', R)
                 lean_params = '(c : Consts) ' + ' '.join('(%s : K)' % self.safe(p) for p in params)
-        ctx = dict(cls=cls, defcls=defcls, fname=node.name, callees=[], reads=set(), callmap={}, aenv={}, ret_abs=[], mreads=set())
+        ctx = dict(cls=cls, defcls=defcls, fname=node.name, callees=[], reads=set(), callmap={}, aenv={}, ret_abs=[], mreads=set(),
+                   inlined=[], inl_abs={})
         body, typ = self.block(node.body, env, ctx)
-        sig = (defcls, node.name, spec, tuple(ctx['callees']))
+        sig = (defcls, node.name, spec, tuple(ctx['callees'])) + ((tuple(ctx['inlined']),) if ctx['inlined'] else ())
         key = hashlib.sha1(repr(sig).encode()).hexdigest()
         if key in self.emitted:
             return self.emitted[key]
@@ -220,79 +231,203 @@ class Translator:
         """translate a statement list that ends in a return; returns (lean text, type)"""
         env = dict(env)
         lines = []
-        for i, st in enumerate(stmts):
-            if isinstance(st, ast.Expr) and isinstance(st.value, ast.Constant) and isinstance(st.value.value, str):
-                continue   # docstring / stray string
-            if isinstance(st, ast.Pass):
-                continue
-            if isinstance(st, ast.Return):
-                e, t = self.expr(st.value, env, ctx)
-                ctx['ret_abs'].append(self.absval(st.value, ctx['aenv'], ctx))
-                lines.append(indent + e)
-                return '\n'.join(lines), t
-            if isinstance(st, ast.Raise):
-                raise Reject('raise')
-            if isinstance(st, ast.Assign):
-                if len(st.targets) != 1:
-                    raise Reject('chained assignment')
-                tgt = st.targets[0]
-                if isinstance(tgt, ast.Name):
-                    e, t = self.expr(st.value, env, ctx)
-                    ctx['aenv'][tgt.id] = self.absval(st.value, ctx['aenv'], ctx)
-                    v = self.safe(tgt.id)
-                    lines.append('%slet %s : %s := %s' % (indent, v, self.lean_type(t), e))
-                    env[tgt.id] = ('var', t)
-                elif isinstance(tgt, ast.Tuple) and all(isinstance(x, ast.Name) for x in tgt.elts):
-                    if isinstance(st.value, ast.Tuple):
-                        if len(st.value.elts) != len(tgt.elts):
-                            raise Reject('tuple arity')
-                        vals = [self.expr(v, env, ctx) for v in st.value.elts]   # evaluate all first
-                        avs = [self.absval(v, ctx['aenv'], ctx) for v in st.value.elts]
-                        for x, av in zip(tgt.elts, avs):
-                            ctx['aenv'][x.id] = av
-                        for x, (e, t) in zip(tgt.elts, vals):
-                            lines.append('%slet %s : %s := %s' % (indent, self.safe(x.id) + '__', self.lean_type(t), e))
-                        for x, (e, t) in zip(tgt.elts, vals):
-                            lines.append('%slet %s : %s := %s' % (indent, self.safe(x.id), self.lean_type(t), self.safe(x.id) + '__'))
-                            env[x.id] = ('var', t)
-                    else:
-                        e, t = self.expr(st.value, env, ctx)
-                        if not isinstance(t, tuple) or len(t) != len(tgt.elts):
-                            raise Reject('unpacking non-tuple')
-                        lines.append('%slet tup__ : %s := %s' % (indent, self.lean_type(t), e))
-                        n = len(t)
-                        av = self.absval(st.value, ctx['aenv'], ctx)
-                        for k, x in enumerate(tgt.elts):
-                            if av[0] == 'T' and len(av[1]) == n:
-                                ctx['aenv'][x.id] = av[1][k]
-                            proj = 'tup__' + '.2' * k + ('.1' if k < n - 1 else '')
-                            lines.append('%slet %s : %s := %s' % (indent, self.safe(x.id), self.lean_type(t[k]), proj))
-                            env[x.id] = ('var', t[k])
-                elif isinstance(tgt, ast.Attribute) and isinstance(tgt.value, ast.Name) and env.get(tgt.value.id, (None,))[0] == 'pt':
-                    e, t = self.expr(st.value, env, ctx)
-                    if t != R:
-                        raise Reject('non-real attribute')
-                    self.field(self.pt_fields, tgt.attr)
-                    lines.append('%slet pt : Pt := { pt with %s := %s }' % (indent, self.safe(tgt.attr), e))
-                else:
-                    raise Reject('assignment target %s' % ast.dump(tgt))
-                continue
-            if isinstance(st, ast.If):
-                cond = self.static(st.test, env, ctx)
-                if cond is None:
-                    raise Reject('%s: non-static if: %s' % (ctx['fname'], ast.unparse(st.test)))
-                branch = st.body if cond else st.orelse
-                rest = stmts[i + 1:]
-                # the branch may return; otherwise continue with the rest in the same scope
-                txt, t = self.block(list(branch) + list(rest), env, ctx, indent) if self.falls_through(branch) else self.block(list(branch), env, ctx, indent)
-                lines.append(txt)
-                return '\n'.join(lines), t
-            raise Reject('%s: statement %s' % (ctx['fname'], type(st).__name__))
+        t = self.run(stmts, env, ctx, indent, lines)
+        if t is not None:
+            return '\n'.join(lines), t
         # no return: a procedure updating pt (prepare)
         if env.get('pt', (None,))[0] == 'pt':
             lines.append(indent + 'pt')
             return '\n'.join(lines), 'Pt'
         raise Reject('%s: no return' % ctx['fname'])
+
+    def run(self, stmts, env, ctx, indent, lines):
+        """translate statements in order, appending `let` lines and updating env in place; returns the type of the
+        returned expression as soon as a `return` is reached (the rest is dead code), None when control falls through"""
+        for st in stmts:
+            if isinstance(st, ast.Expr) and isinstance(st.value, ast.Constant) and isinstance(st.value.value, str):
+                continue   # docstring / stray string
+            if isinstance(st, ast.Pass):
+                continue
+            if isinstance(st, ast.Return):
+                if st.value is None:
+                    raise Reject('%s: bare return' % ctx['fname'])
+                e, t = self.expr(st.value, env, ctx)
+                ctx['ret_abs'].append(self.absval(st.value, ctx['aenv'], ctx))
+                lines.append(indent + e)
+                return t
+            if isinstance(st, ast.Raise):
+                raise Reject('raise')
+            if isinstance(st, ast.AugAssign):
+                if not isinstance(st.target, ast.Name):
+                    raise Reject('%s: augmented assignment to %s' % (ctx['fname'], type(st.target).__name__))
+                st = ast.Assign(targets=[ast.Name(id=st.target.id, ctx=ast.Store())],
+                                value=ast.BinOp(left=ast.Name(id=st.target.id, ctx=ast.Load()), op=st.op, right=st.value))
+            if isinstance(st, ast.Assign):
+                self.assign(st, env, ctx, indent, lines)
+                continue
+            if isinstance(st, ast.If):
+                cond = self.static(st.test, env, ctx)
+                if cond is None:
+                    raise Reject('%s: non-static if: %s' % (ctx['fname'], ast.unparse(st.test)))
+                # the branch may return; otherwise continue with the rest in the same scope
+                t = self.run(st.body if cond else st.orelse, env, ctx, indent, lines)
+                if t is not None:
+                    return t
+                continue
+            if isinstance(st, ast.For):
+                # a loop over a sequence known at translation time is unrolled
+                if st.orelse:
+                    raise Reject('%s: for/else' % ctx['fname'])
+                items = self.static_iter(st.iter, env, ctx)
+                if items is None:
+                    raise Reject('%s: loop over a sequence not known at translation time: %s' % (ctx['fname'], ast.unparse(st.iter)[:60]))
+                for it in items:
+                    self.bind_static(st.target, it, env, ctx)
+                    if self.run(st.body, env, ctx, indent, lines) is not None:
+                        raise Reject('%s: return inside a loop' % ctx['fname'])
+                continue
+            raise Reject('%s: statement %s' % (ctx['fname'], type(st).__name__))
+        return None
+
+    def assign(self, st, env, ctx, indent, lines):
+        if len(st.targets) != 1:
+            raise Reject('chained assignment')
+        tgt = st.targets[0]
+        if isinstance(tgt, ast.Name):
+            sv = self.static_value(st.value, env, ctx)
+            if sv is not None and self.symbolic(sv):
+                # a bound method / a tuple of bound methods: translation-time value, nothing to emit
+                env[tgt.id] = sv
+                ctx['aenv'].pop(tgt.id, None)
+                return
+            e, t = self.expr(st.value, env, ctx)
+            ctx['aenv'][tgt.id] = self.absval(st.value, ctx['aenv'], ctx)
+            v = self.safe(tgt.id)
+            lines.append('%slet %s : %s := %s' % (indent, v, self.lean_type(t), e))
+            env[tgt.id] = ('var', t)
+        elif isinstance(tgt, ast.Tuple) and all(isinstance(x, ast.Name) for x in tgt.elts):
+            if isinstance(st.value, ast.Tuple):
+                if len(st.value.elts) != len(tgt.elts):
+                    raise Reject('tuple arity')
+                vals = [self.expr(v, env, ctx) for v in st.value.elts]   # evaluate all first
+                avs = [self.absval(v, ctx['aenv'], ctx) for v in st.value.elts]
+                for x, av in zip(tgt.elts, avs):
+                    ctx['aenv'][x.id] = av
+                for x, (e, t) in zip(tgt.elts, vals):
+                    lines.append('%slet %s : %s := %s' % (indent, self.safe(x.id) + '__', self.lean_type(t), e))
+                for x, (e, t) in zip(tgt.elts, vals):
+                    lines.append('%slet %s : %s := %s' % (indent, self.safe(x.id), self.lean_type(t), self.safe(x.id) + '__'))
+                    env[x.id] = ('var', t)
+            else:
+                e, t = self.expr(st.value, env, ctx)
+                if not isinstance(t, tuple) or len(t) != len(tgt.elts):
+                    raise Reject('unpacking non-tuple')
+                lines.append('%slet tup__ : %s := %s' % (indent, self.lean_type(t), e))
+                n = len(t)
+                av = self.absval(st.value, ctx['aenv'], ctx)
+                for k, x in enumerate(tgt.elts):
+                    if av[0] == 'T' and len(av[1]) == n:
+                        ctx['aenv'][x.id] = av[1][k]
+                    proj = 'tup__' + '.2' * k + ('.1' if k < n - 1 else '')
+                    lines.append('%slet %s : %s := %s' % (indent, self.safe(x.id), self.lean_type(t[k]), proj))
+                    env[x.id] = ('var', t[k])
+        elif isinstance(tgt, ast.Attribute) and isinstance(tgt.value, ast.Name) and env.get(tgt.value.id, (None,))[0] == 'pt':
+            if ctx.get('inlining'):
+                raise Reject('%s: an inlined helper assigns to the point' % ctx['fname'])
+            e, t = self.expr(st.value, env, ctx)
+            if t != R:
+                raise Reject('non-real attribute')
+            self.field(self.pt_fields, tgt.attr)
+            lines.append('%slet pt : Pt := { pt with %s := %s }' % (indent, self.safe(tgt.attr), e))
+        else:
+            raise Reject('assignment target %s' % ast.dump(tgt))
+
+    # ------------------------------------------------------------------ translation-time values
+    # ('const', number | str | tuple of those)   ('meth', name) = the bound method self.name   ('tuple', (values…))
+    def symbolic(self, sv):
+        """has no Lean value: a bound method, or a tuple containing one"""
+        return sv[0] == 'meth' or (sv[0] == 'tuple' and any(self.symbolic(x) for x in sv[1]))
+
+    def static_value(self, node, env, ctx):
+        if isinstance(node, ast.Name):
+            k = env.get(node.id)
+            return k if k and k[0] in ('const', 'meth', 'tuple') else None
+        if isinstance(node, ast.Attribute) and isinstance(node.value, ast.Name) and node.value.id == 'self' \
+                and 'self' not in env and ctx.get('cls') is not None:
+            try:
+                self.resolve(ctx['cls'], node.attr)
+            except Reject:
+                return None
+            return ('meth', node.attr)
+        if isinstance(node, (ast.Tuple, ast.List)):
+            items = [self.static_value(e, env, ctx) for e in node.elts]
+            return None if any(i is None for i in items) else ('tuple', tuple(items))
+        if isinstance(node, ast.Subscript):
+            base = self.static_value(node.value, env, ctx)
+            if base is None or base[0] != 'tuple':
+                return None
+            sl = node.slice
+            if isinstance(sl, ast.Slice):
+                bounds = []
+                for b in (sl.lower, sl.upper, sl.step):
+                    v = None if b is None else self.const_value(b, env)
+                    if b is not None and not isinstance(v, int):
+                        return None
+                    bounds.append(v)
+                return ('tuple', base[1][slice(*bounds)])
+            idx = self.const_value(sl, env)
+            if not isinstance(idx, int):
+                return None
+            if not -len(base[1]) <= idx < len(base[1]):
+                raise Reject('%s: index %d out of range' % (ctx['fname'], idx))
+            return base[1][idx]
+        cv = self.const_value(node, env)
+        return None if cv is None else ('const', cv)
+
+    def static_iter(self, node, env, ctx):
+        """the items of a sequence known at translation time (list of translation-time values), else None"""
+        sv = self.static_value(node, env, ctx)
+        if sv is not None:
+            if sv[0] == 'tuple':
+                return list(sv[1])
+            if sv[0] == 'const' and isinstance(sv[1], tuple):
+                return [('const', x) for x in sv[1]]
+            return None
+        if isinstance(node, ast.Call) and isinstance(node.func, ast.Name) and node.func.id not in env:
+            fn = node.func.id
+            if fn == 'range' and not node.keywords and 1 <= len(node.args) <= 3:
+                vs = [self.const_value(a, env) for a in node.args]
+                if all(isinstance(v, int) for v in vs):
+                    return [('const', i) for i in range(*vs)]
+                return None
+            if fn == 'enumerate' and 1 <= len(node.args) <= 2 and all(k.arg == 'start' for k in node.keywords):
+                seq = self.static_iter(node.args[0], env, ctx)
+                start = 0
+                for a in list(node.args[1:]) + [k.value for k in node.keywords]:
+                    start = self.const_value(a, env)
+                if seq is None or not isinstance(start, int):
+                    return None
+                return [('tuple', (('const', start + i), x)) for i, x in enumerate(seq)]
+            if fn == 'zip' and node.args and not node.keywords:
+                seqs = [self.static_iter(a, env, ctx) for a in node.args]
+                if any(q is None for q in seqs):
+                    return None
+                return [('tuple', tuple(xs)) for xs in zip(*seqs)]
+        return None
+
+    def bind_static(self, tgt, sv, env, ctx):
+        if isinstance(tgt, ast.Name):
+            env[tgt.id] = sv
+            ctx['aenv'].pop(tgt.id, None)
+            return
+        if isinstance(tgt, (ast.Tuple, ast.List)):
+            items = list(sv[1]) if sv[0] == 'tuple' else [('const', x) for x in sv[1]] if isinstance(sv[1], tuple) else None
+            if items is None or len(items) != len(tgt.elts):
+                raise Reject('%s: cannot unpack loop item' % ctx['fname'])
+            for x, it in zip(tgt.elts, items):
+                self.bind_static(x, it, env, ctx)
+            return
+        raise Reject('%s: loop target %s' % (ctx['fname'], type(tgt).__name__))
 
     # ------------------------------------------------------------------ vanishing analysis
     # For each condition on the model values (CONDS) decide syntactically (sound, not complete)
@@ -368,6 +503,8 @@ class Translator:
                     names = ['ReH', 'ImH', 'ReE', 'ImE', 'ReHt', 'ImHt', 'ReEt', 'ImEt']
                     return ('T', [self.aR(lambda c, n=n: n in self.CONDS[c]) for n in names])
                 return self.aR(lambda c: f.attr in self.CONDS[c])
+            if id(node) in ctx.get('inl_abs', {}):
+                return ctx['inl_abs'][id(node)]
             name = ctx.get('callmap', {}).get(id(node))
             if name and name in self.meta:
                 van = self.meta[name].get('vanish', {})
@@ -391,6 +528,15 @@ class Translator:
         if isinstance(test, ast.UnaryOp) and isinstance(test.op, ast.Not):
             v = self.static(test.operand, env, ctx)
             return None if v is None else not v
+        if isinstance(test, ast.Compare) and len(test.ops) == 1:
+            a, b = self.const_value(test.left, env), self.const_value(test.comparators[0], env)
+            num = lambda v: isinstance(v, (int, float))
+            if num(a) and num(b):
+                op = test.ops[0]
+                for cls_, f in ((ast.Eq, lambda: a == b), (ast.NotEq, lambda: a != b), (ast.Lt, lambda: a < b),
+                                (ast.LtE, lambda: a <= b), (ast.Gt, lambda: a > b), (ast.GtE, lambda: a >= b)):
+                    if isinstance(op, cls_):
+                        return f()
         return None
 
     # ------------------------------------------------------------------ expressions
@@ -402,9 +548,14 @@ class Translator:
             return env[node.id][1]
         if isinstance(node, ast.UnaryOp) and isinstance(node.op, ast.USub):
             v = self.const_value(node.operand, env)
-            return None if v is None else -v
+            return -v if isinstance(v, (int, float)) else None
+        if isinstance(node, ast.UnaryOp) and isinstance(node.op, ast.UAdd):
+            v = self.const_value(node.operand, env)
+            return v if isinstance(v, (int, float)) else None
         if isinstance(node, ast.BinOp):
             a, b = self.const_value(node.left, env), self.const_value(node.right, env)
+            if not (isinstance(a, (int, float)) and isinstance(b, (int, float))):
+                return None
             if a is None or b is None:
                 return None
             if isinstance(node.op, ast.Div):
@@ -533,7 +684,10 @@ class Translator:
                     raise Reject('call %s' % f.id)
                 ctx['callees'].append(lname)
                 return '(%s c %s)' % (lname, ' '.join(a for a, _ in args)), R
-            if f.id in self.mod.functions:
+            if f.id in self.mod.functions and f.id not in env and f.id not in self.targets:
+                # a module-level helper (not a requested entry point): inlined
+                return self.inline_function(self.mod.functions[f.id], node, env, ctx)
+            if f.id in self.mod.functions and f.id not in env:
                 lname, t = self.gen_func(self.mod.functions[f.id])
                 args = []
                 for a in node.args:
@@ -546,7 +700,14 @@ class Translator:
                         args.append(e)
                 ctx['callees'].append(lname)
                 return '(%s c %s)' % (lname, ' '.join(args)), t
+            sv = self.static_value(f, env, ctx)
+            if sv is not None and sv[0] == 'meth':
+                return self.method_call(sv[1], node, env, ctx)      # fn(pt) with fn a bound method
             raise Reject('%s: call to %s' % (ctx['fname'], f.id))
+        if isinstance(f, ast.Subscript):
+            sv = self.static_value(f, env, ctx)
+            if sv is not None and sv[0] == 'meth':
+                return self.method_call(sv[1], node, env, ctx)      # fns[k](pt)
         # self.m.NAME(pt)   /  self.NAME(pt, ...)  /  self.m.cff(pt)
         if isinstance(f, ast.Attribute):
             v = f.value
@@ -561,25 +722,7 @@ class Translator:
                 ctx['mreads'].add(f.attr)
                 return 'm.%s' % f.attr, R
             if isinstance(v, ast.Name) and v.id == 'self':
-                if not node.args or not (isinstance(node.args[0], ast.Name) and node.args[0].id == 'pt'):
-                    raise Reject('%s: self.%s without pt' % (ctx['fname'], f.attr))
-                dcls, fn = self.resolve(ctx['cls'], f.attr)
-                pnames = [a.arg for a in fn.args.args][2:]
-                given = {}
-                for k, a in enumerate(node.args[1:]):
-                    cv = self.const_value(a, env)
-                    if cv is None:
-                        raise Reject('%s: non-constant argument to %s' % (ctx['fname'], f.attr))
-                    given[pnames[k]] = cv
-                for kw in node.keywords:
-                    cv = self.const_value(kw.value, env)
-                    if cv is None:
-                        raise Reject('%s: non-constant keyword to %s' % (ctx['fname'], f.attr))
-                    given[kw.arg] = cv
-                lname, t = self.gen_method(ctx['cls'], f.attr, tuple(sorted(given.items())))
-                ctx['callees'].append(lname)
-                ctx['callmap'][id(node)] = lname
-                return '(%s c m pt)' % lname, t
+                return self.method_call(f.attr, node, env, ctx)
         # self.CINT[key](self, pt)
         if isinstance(f, ast.Subscript) and isinstance(f.value, ast.Attribute) and isinstance(f.value.value, ast.Name) \
                 and f.value.value.id == 'self':
@@ -598,3 +741,124 @@ class Translator:
             ctx['callmap'][id(node)] = lname
             return '(%s c m pt)' % lname, t
         raise Reject('%s: call %s' % (ctx['fname'], ast.unparse(node)[:60]))
+
+    # ------------------------------------------------------------------ method calls, inlining
+    def method_call(self, mname, node, env, ctx):
+        """self.NAME(pt, args…): specialised definition when every argument is a constant; inlined when the callee is
+        a private helper or takes a real-valued argument / a bound method / a tuple of them"""
+        if ctx.get('cls') is None:
+            raise Reject('%s: method call outside a class' % ctx['fname'])
+        if not node.args or not (isinstance(node.args[0], ast.Name) and env.get(node.args[0].id, (None,))[0] == 'pt'):
+            raise Reject('%s: self.%s without pt' % (ctx['fname'], mname))
+        dcls, fn = self.resolve(ctx['cls'], mname)
+        pnames = [a.arg for a in fn.args.args][2:]
+        if fn.args.vararg or fn.args.kwarg or fn.args.kwonlyargs or fn.args.posonlyargs:
+            raise Reject('%s: signature of %s' % (ctx['fname'], mname))
+        given, other = {}, {}
+        pairs = []
+        for k, a in enumerate(node.args[1:]):
+            if k >= len(pnames):
+                raise Reject('%s: too many arguments to %s' % (ctx['fname'], mname))
+            pairs.append((pnames[k], a))
+        for kw in node.keywords:
+            if kw.arg is None or kw.arg not in pnames:
+                raise Reject('%s: keyword to %s' % (ctx['fname'], mname))
+            pairs.append((kw.arg, kw.value))
+        for pname, a in pairs:
+            if pname in given or pname in other:
+                raise Reject('%s: argument %s given twice' % (ctx['fname'], pname))
+            cv = self.const_value(a, env)
+            if cv is not None:
+                given[pname] = cv
+            else:
+                other[pname] = a
+        private = mname.startswith('_') and mname not in self.targets
+        if other or private:
+            return self.inline(fn, node, dcls, given, other, env, ctx, method=True)
+        lname, t = self.gen_method(ctx['cls'], mname, tuple(sorted(given.items())))
+        ctx['callees'].append(lname)
+        ctx['callmap'][id(node)] = lname
+        return '(%s c m pt)' % lname, t
+
+    def inline_function(self, fn, node, env, ctx):
+        params = [a.arg for a in fn.args.args]
+        if node.keywords and any(k.arg is None or k.arg not in params for k in node.keywords):
+            raise Reject('%s: keyword to %s' % (ctx['fname'], fn.name))
+        if len(node.args) > len(params) or fn.args.vararg or fn.args.kwarg or fn.args.kwonlyargs or fn.args.posonlyargs:
+            raise Reject('%s: signature of %s' % (ctx['fname'], fn.name))
+        given, other = {}, {}
+        for pname, a in list(zip(params, node.args)) + [(k.arg, k.value) for k in node.keywords]:
+            if pname in given or pname in other:
+                raise Reject('%s: argument %s given twice' % (ctx['fname'], pname))
+            cv = self.const_value(a, env)
+            if cv is not None:
+                given[pname] = cv
+            else:
+                other[pname] = a
+        return self.inline(fn, node, None, given, other, env, ctx, method=False)
+
+    def inline(self, fn, node, defcls, given, other, env, ctx, method):
+        """the body of `fn` as a term at the call site.  Constants, bound methods and tuples of them are bound at
+        translation time; real-valued arguments become the arguments of a lambda (evaluated in the caller's scope);
+        `pt` is the caller's point.  reads / callees / CFF reads accumulate in the caller's context."""
+        if self.inline_depth > 12:
+            raise Reject('%s: inlining too deep (recursive helper %s?)' % (ctx['fname'], fn.name))
+        params = [a.arg for a in fn.args.args]
+        extra = params[2:] if method else params
+        defaults = [self.const_value(d, {}) for d in fn.args.defaults]
+        dvals = dict(zip(params[len(params) - len(defaults):], defaults))
+        env2, aenv2, lam, args = {}, {}, [], []
+        if method:
+            env2['pt'] = ('pt', None)
+        for e in extra:
+            if e in given:
+                env2[e] = ('const', given[e])
+            elif e in other:
+                a = other[e]
+                if isinstance(a, ast.Name) and env.get(a.id, (None,))[0] == 'pt':
+                    if e != 'pt':
+                        raise Reject('%s: the point passed as %s' % (ctx['fname'], e))
+                    env2[e] = ('pt', None)
+                    continue
+                sv = self.static_value(a, env, ctx)
+                if sv is not None:
+                    env2[e] = sv
+                    continue
+                x, t = self.expr(a, env, ctx)
+                if t != R:
+                    raise Reject('%s: argument %s of %s is not a real scalar' % (ctx['fname'], e, fn.name))
+                env2[e] = ('var', R)
+                aenv2[e] = self.absval(a, ctx['aenv'], ctx)
+                lam.append(self.safe(e))
+                args.append(self.paren(x))
+            elif e in dvals and dvals[e] is not None:
+                env2[e] = ('const', dvals[e])
+            else:
+                raise Reject('%s: argument %s of %s not given' % (ctx['fname'], e, fn.name))
+        # names of the caller's locals must not capture what the helper's body refers to globally
+        ctx2 = dict(ctx)
+        ctx2.update(fname=fn.name, aenv=aenv2, ret_abs=[], inlining=True)
+        ctx['inlined'].append((defcls, fn.name))
+        ncall = len(ctx['callees'])
+        self.inline_depth += 1
+        try:
+            body, typ = self.block(fn.body, env2, ctx2, indent='    ')
+        finally:
+            self.inline_depth -= 1
+        if typ == 'Pt':
+            raise Reject('%s: inlined helper %s returns the point' % (ctx['fname'], fn.name))
+        locals_ = {self.safe(k) for k, v in env.items() if v[0] == 'var'}
+        clash = sorted(x for x in ctx['callees'][ncall:] if x in locals_)
+        if clash:
+            raise Reject('%s: local name %s of the caller would capture a function used by %s' % (ctx['fname'], clash[0], fn.name))
+        rets = ctx2['ret_abs']
+        if len(rets) == 1:
+            ctx['inl_abs'][id(node)] = rets[0]
+        elif rets and all(r[0] == 'R' for r in rets):
+            ctx['inl_abs'][id(node)] = self.aR(lambda c: all(r[1][c] for r in rets))
+        else:
+            ctx['inl_abs'][id(node)] = self.aR(lambda c: False)
+        if lam:
+            return '((fun %s =>\n%s) %s)' % (' '.join('(%s : K)' % x for x in lam), body, ' '.join(args)), typ
+        return '(\n%s)' % body, typ
+
